@@ -125,6 +125,11 @@ def check(c, label):
         STATE.failures.append(label)
 
 
+def lemma(c, label):
+    """check, then a fact for the rest of the path (natively: a check)."""
+    check(c, label)
+
+
 def cover(label):
     STATE.covers.add(label)
 
